@@ -84,6 +84,13 @@ CHECKS.update({
    note=TB_Q + " identify is certified as |x - value| <= 2^10*tol*max(1,|x|) (interpretation stated in the evidence)."),
 })
 
+
+CHECKS.update({
+ "C07": dict(level="proof", engine="A", technique="Coq theorem: exact branch of from_str (|exp|<=400) = Flocq rounding of the decimal value, all modes; refutation witness for the approximate branch; literal generator in correspondence with an exact-rational oracle; iv.mpf(str) containment",
+   text="from_str on the parsed (mantissa, decimal exponent) pair is modelled; the branch for |exponent| <= 400 is proved to return the correctly rounded value of man*10^exp (from the from_int and division theorems). The |exponent| > 400 branch is shown by a vm_compute witness to put a ceiling conversion below the exact value: recorded as known findings keyed by branch and clause, so any other violation (exact branch, parsing, specials, malformed literals accepted) is still reported. Literals with 1..460 digits, exponents incl. +-400/401 and huge, p/q forms and interval strings are run against an exact-rational oracle.",
+   note=TB_A),
+})
+
 NOT_APPLICABLE = {
 }
 
